@@ -71,3 +71,14 @@ Proof. split; reflexivity. Qed.
 Example quantile_groups :
   flox_quantile true 1 2 [[3; 1; 2]; []; [8; 7]] [0; 2; 1] = [QFin (2 # 1); QNaN; QFin (15 # 2)].
 Proof. reflexivity. Qed.
+
+Lemma quantile_vec_correct :
+  forall skipna qs groups nans,
+    Forall (fun q => 0 < snd q /\ 0 <= fst q <= snd q) qs -> length groups = length nans ->
+    flox_quantile_vec skipna qs groups nans = spec_quantile_vec skipna qs groups nans
+    /\ length (flox_quantile_vec skipna qs groups nans) = length qs.
+Proof.
+  intros skipna qs groups nans Hq Hl. unfold flox_quantile_vec, spec_quantile_vec. split; [|apply map_length].
+  apply map_ext_in. intros q Hin. rewrite Forall_forall in Hq. destruct (Hq q Hin) as [H1 H2].
+  now apply flox_quantile_correct.
+Qed.
